@@ -161,11 +161,67 @@ def handleSeq (kind steps : String) (impl : String) : Verdict := Id.run do
     j := j + 1
   return ⟨joinOr ms "/", ok, s!"seq:{kind}:n={min specs.length 5}:dies={min dies 2}:shorter-after-die={shorter}"⟩
 
+/-- `obj`: one long-lived store object; the model is `runObj` (= `specObj`, theorem obj_reads_last) -/
+def handleObj (kind steps : String) (impl : String) : Verdict := Id.run do
+  let specs := items steps ";"
+  let outs := (items impl "/").map (·.splitOn ",")
+  if outs.length != specs.length then return ⟨"UNPARSABLE", false, "obj:unparsable"⟩
+  let mut fs : FS := fun _ => none
+  let mut seen : List (Nat × Nat) := []
+  let mut ms : List String := []
+  let mut ok := true
+  -- on the implementation's side: the contents a read may return now (the last successfully stored one; after a
+  -- FAILED store also that store's content, until the next read settles it)
+  let mut allowed : List (Option Bytes) := [none]
+  let mut j := 0
+  let mut gets := 0
+  let mut sameLen := false
+  let mut prevLen : Option Nat := none
+  for (spec, o) in specs.zip outs do
+    if spec = "g" then
+      gets := gets + 1
+      let cur := fs pPath
+      let file := classifySeq seen cur
+      ms := ms ++ [s!"g,{if file.startsWith "v" then file else "err"}"]
+      match o with
+      | ["g", res] =>
+        let obs := unclassifySeq seen res
+        ok := ok && allowed.contains obs
+        allowed := [obs]
+      | _ => ok := false
+    else
+      match spec.splitOn ":", o with
+      | [mode, k, _], ["s", c, l, ist, ifile] =>
+        let some c := c.toNat? | return ⟨"UNPARSABLE", false, "obj:unparsable"⟩
+        let some l := l.toNat? | return ⟨"UNPARSABLE", false, "obj:unparsable"⟩
+        let k := k.toNat?.getD 0
+        let newB := synth c l
+        if prevLen == some l && !(seen.any (·.1 == c)) then sameLen := true
+        prevLen := some l
+        seen := seen ++ [(c, l)]
+        let fault : Fault := if mode = "fail" && k < l then .fail 1 k [] else .none
+        let prog := storeAtomic pPath s!"tmp{j}" newB
+        fs := exec prog fault fs
+        let st := status prog fault
+        ms := ms ++ [s!"s,{c},{l},{showStatus st},{classifySeq seen (fs pPath)}"]
+        let fobs := unclassifySeq seen ifile
+        if ist = "ok" then
+          ok := ok && fobs == some newB
+          allowed := [some newB]
+        else if ist = "err" then
+          ok := ok && (allowed.contains fobs || fobs == some newB)
+          allowed := allowed ++ [some newB]
+        else ok := false
+      | _, _ => return ⟨"UNPARSABLE", false, "obj:unparsable"⟩
+    j := j + 1
+  return ⟨joinOr ms "/", ok, s!"obj:{kind}:n={min specs.length 8}:gets={min gets 4}:same-length-successor={sameLen}"⟩
+
 def handle (op : String) (args : List String) (impl : String) : Option Verdict :=
   match op, args with
   | "store", [kind, mode, k, oldS, _newS] => some (handleStore false kind mode k oldS impl)
   | "storero", [kind, mode, k, oldS, _newS] => some (handleStore true kind mode k oldS impl)
   | "seq", [kind, steps] => some (handleSeq kind steps impl)
+  | "obj", [kind, steps] => some (handleObj kind steps impl)
   | _, _ => none
 
 end Sygma.Drv.C18
